@@ -118,7 +118,7 @@ CHECKS['C14'] = dict(
 CHECKS['C15'] = dict(
    text='Machine-checked theorems over textbook definitions of the core indicators written as state machines in exact rationals: RSI in [0,100] for every series and period, '
         'Williams %R in [-100,0] and stochastic %K in [0,100] for every series of candles with low <= close <= high, Donchian lower <= middle <= upper and the channel '
-        'encloses every candle of the window, ATR and variance never negative (variance via n*sum(x^2) >= (sum x)^2, proved by induction), the money flow index in [0,100] for candles with non-negative prices and volumes, Keltner lower <= middle <= upper (defined at the same indices, any multiplier >= 0), and SMA, EMA, WMA, TRIMA, Wilder\'s smoothing, DEMA, TEMA and the three MACD series scale linearly with '
+        'encloses every candle of the window, ATR and variance never negative (variance via n*sum(x^2) >= (sum x)^2, proved by induction), the money flow index in [0,100] for candles with non-negative prices and volumes, Keltner lower <= middle <= upper (defined at the same indices, any multiplier >= 0), and SMA, EMA, WMA, TRIMA, Wilder\'s smoothing, DEMA, TEMA, the three MACD series and (for factors >= 0) ATR scale linearly with '
         'price. The definitions are evaluated in Coq against jesse.indicators (that is the agreement-with-an-independent-implementation clause, 29 series), and range, '
         'ordering, selector and scaling monitors run on the implementation for the whole list of the property.',
    note='Trusted: Coq kernel + vm_compute; hand-written Model/Indicators.v tied by value correspondence (relative 1e-8); harness/c15.py, ind.py. Indicators that need '
